@@ -196,6 +196,16 @@ Definition cli_set_mode_at (m : bytes) (now off : Z) (t : tree) : tree * bool :=
 Definition cli_run_at (c : cmd) (now off : Z) (t : tree) : tree * bool :=
   cli_run c (utc_day now) t.
 
+(* the process environment's temporary directory (TMPDIR): unset, a directory
+   on the configuration directory's file system, a directory on another file
+   system, a missing path, a regular file.  The commands do not use it: the mode
+   file is written in place (os.WriteFile), so the only footprint of a command
+   is the telemetry tree and the temporary directory stays as it was. *)
+Inductive tmpdir := TmpDefault | TmpSameFs | TmpOtherFs | TmpMissing | TmpNotDir.
+
+Definition cli_run_env (c : cmd) (now off : Z) (tmp : tmpdir) (t : tree) : tree * bool :=
+  cli_run_at c now off t.
+
 (* runEnv: fmt.Printf("mode: %s %s\n", m, t) with t a time.Time (UTC midnight
    or the zero time), then the three paths *)
 Definition zero_date : bytes := lit_zero_date.
